@@ -172,6 +172,7 @@ def run(ctx: Ctx) -> None:
         ctx.obligation("correspondence: Lib/Render.v plain/color/github/format_errors = the real renderers on every generated error and report",
                        not mism, "; ".join(mism[:5]))
     cli_matrix(ctx)
+    options_from_the_config_file(ctx)
     perturb(ctx)
     ctx.resolve_broken({"translate format_errors and the exit status (refurb/main.py)": ("formats-disagree", "hint-condition", "exit-status", "color-changes-text"),
                         "format_errors_translated_is_the_model": ("formats-disagree", "hint-condition", "color-changes-text"), "github_format_ignores_colour": ("formats-disagree",),
@@ -238,6 +239,39 @@ def cli_matrix(ctx: Ctx) -> None:
                             ctx.report("formats-disagree", f"text and github runs list different diagnostics ({tag}, sort={sort})",
                                        {"argv": argv, "text": base[key][:4], "github": fields[:4]})
                         base.setdefault(key, fields)
+
+
+def options_from_the_config_file(ctx: Ctx) -> None:
+    """quiet / format / sort given in [tool.refurb] instead of on the command line, beside unrelated command-line options
+    (all-switches, enable, ignore, verbose): the report obeys them exactly as when they are given on the command line."""
+    from concurrent.futures import ThreadPoolExecutor
+    others = [(), ("--enable-all",), ("--disable-all", "--enable", "FURB123"), ("--ignore", "FURB105"), ("--verbose",), ("--enable", "FURB120"), ("--disable", "FURB105")]
+    jobs = [(quiet, fmt, other, where) for quiet in (True, False) for fmt in ("text", "github") for other in others for where in ("command-line", "config-file")]
+
+    def one(job):
+        quiet, fmt, other, where = job
+        with tempfile.TemporaryDirectory(prefix="c13c-") as td:
+            (Path(td) / "a.py").write_text("x = int(0)\ny = str('')\nprint('')\n")
+            cfg = "[tool.refurb]\n" + (f'quiet = {str(quiet).lower()}\nformat = "{fmt}"\nsort_by = "error"\n' if where == "config-file" else "")
+            (Path(td) / "pyproject.toml").write_text(cfg)
+            argv = ["a.py", *other] + ((["--quiet"] if quiet else []) + ["--format", fmt, "--sort", "error"] if where == "command-line" else [])
+            rc, out, err = L.cli(argv, cwd=td)
+        return job, (rc, [l for l in out.splitlines() if not l.startswith("Enabled checks")], argv, cfg)
+
+    with ThreadPoolExecutor(max_workers=10) as ex:
+        res = dict(ex.map(one, jobs))
+    for quiet in (True, False):
+        for fmt in ("text", "github"):
+            for other in others:
+                (rc1, l1, argv1, _), (rc2, l2, argv2, cfg2) = res[(quiet, fmt, other, "command-line")], res[(quiet, fmt, other, "config-file")]
+                for where in ("command-line", "config-file"):
+                    ctx.case(("options-source", where, quiet, fmt, tuple(other)), nontrivial=True)
+                    ctx.count("options-from-" + where)
+                if (rc1, l1) != (rc2, l2):
+                    hint2 = any("refurb --explain ERR" in l for l in l2)
+                    ctx.report("hint-condition:config-file" if hint2 != any("refurb --explain ERR" in l for l in l1) else "formats-disagree:config-file",
+                               f"quiet={quiet}, format={fmt} given in [tool.refurb] beside {list(other) or 'no other option'} print a different report than the same options on the command line",
+                               {"command_line": argv1, "config_file_run": argv2, "pyproject.toml": cfg2, "stdout_command_line": l1[-6:], "stdout_config_file": l2[-6:], "status": [rc1, rc2]})
 
 
 class Perturb(ast.NodeTransformer):
